@@ -121,9 +121,12 @@ func setRequestHeaderValue(r *http.Request, name string, val value.Value) {
 	}
 
 	if strings.EqualFold(name, "cookie") {
-		c := http.CreateCookie(key, val.String())
-		r.AddCookie(c)
-		return
+		// net/http does not build a cookie from every key and value (e.g. a value that
+		// holds a double quote or a semicolon), the field is set as a generic one then
+		if c := http.CreateCookie(key, val.String()); c != nil {
+			r.AddCookie(c)
+			return
+		}
 	}
 
 	// Handle setting RFC-8941 dictionary value
